@@ -316,6 +316,14 @@ inductive ApiOp
   | pLink (d s : Nat)                          -- d->next = s      (the handle embedded in the object d designates)
   | pNext (d : Nat)                            -- d = d->next      (the assigned handle lives in the object d releases)
   | pNextOf (d s : Nat)                        -- d = s->next
+  -- round 7: constructors on a destroyed object and guarded edits that the earlier rounds did not drive
+  | gNew (d tag : Nat) (inl : Bool) (val : List Nat) (cap : Nat)
+      -- destructor, then a constructor that builds a fresh value: `String(usize capacity)` (tag 0, [], cap),
+      -- `attach` to unterminated memory (inline, tag `tagStrU`), `Variant(const String&/List&/Array&/HashMap&)`,
+      -- `Xml::Variant(const String&/Element&)` (a fresh box of that tag)
+  | gEdit (d : Nat) (skip : Bool) (nv : List Nat)
+      -- `detach(len, len)` + edit of the bytes to nv (`toUpperCase`); `operator const char*()` detaches only attached memory
+      -- that is not terminated and changes no byte: nv = the bytes, `skip = constSkip st d` in the state in which the call starts
 deriving Repr
 
 def tagStr : Nat := 0
@@ -327,6 +335,8 @@ def tagXElem : Nat := 23
 def tagVArr : Nat := 14
 def tagVMap : Nat := 15
 def tagObj : Nat := 30
+/-- inline tag of attached String memory whose byte after the end is not 0 (`operator const char*()` detaches it) -/
+def tagStrU : Nat := 1
 
 
 def lowerByte (c : Nat) : Nat := if 65 ≤ c ∧ c ≤ 90 then c + 32 else c
@@ -368,6 +378,9 @@ def blkCap (s : St) (v : Nat) : Nat :=
   | .blk b => match s.heap b with | some blk => blk.cap | none => 0
   | _ => 0
 def inlTag (s : St) (v : Nat) : Option Nat := match s.slots v with | .inl t _ => some t | _ => none
+
+/-- `operator const char*()` does nothing unless the data is attached memory whose byte after the end is not 0 -/
+def constSkip (s : St) (v : Nat) : Bool := !(inlTag s v == some tagStrU)
 
 def decDigits (x : Nat) : List Nat := (toString x).toList.map Char.toNat
 
@@ -512,6 +525,8 @@ def pre (st : St) (tid : Nat) : ApiOp → List Act
   | .pNextOf d s => match blkOf st s with
     | some c => ptrAssignEmb st tid d c s
     | none => [.move d d]
+  | .gNew d tag inl val cap => rel d ++ (if inl then [.setInl d tag val] else [.alloc d tag val cap])
+  | .gEdit d skip _ => if skip then [] else [.readRef d true]
 
 def isWriting (st : St) (tid : Nat) : Bool := match st.pc tid with | .writing _ _ => true | _ => false
 
@@ -578,6 +593,11 @@ def post (st : St) (tid : Nat) : ApiOp → List Act
     if isWriting st tid then [.write bytes]
     else if blkTag st d == some tagXElem then cloneAllocFirst tid d tagXElem bytes 0
     else cloneReleaseFirst d tagXElem bytes
+  | .gEdit d skip nv =>
+    -- only unterminated attached memory is detached by the conversion: never counted, so the plain read fails and it is cloned
+    if isWriting st tid then [.write nv]
+    else if skip then []
+    else cloneAllocFirst tid d tagStr nv (st.capTab siteDetach nv.length)
   | _ => []
 
 /-- single-threaded semantics of one API call: all its steps, uninterrupted, on thread `tid` -/
